@@ -1,3 +1,228 @@
-import ArrModel.Broadcast
+import ArrProofs.Lemmas.C03Shape
+/-!
+# C03 — broadcasting follows the trailing-axis stretch rule, in shape and in values
+
+Property theorems only (helper lemmas and the specification predicates `stretchEq`, `stretchable`
+live in `ArrProofs/Lemmas/C03*.lean`).
+Model under test: `ArrModel/Broadcast.lean` (`isBroadcastable`, `broadcastShape`, `broadcastTo`, `broadcast`,
+`commonBroadcastShape`, `broadcastArrays`, `zip`), which transcribes `validators/shape.rs:18-29`,
+`operations/broadcast.rs` and `iter.rs:308-315` arm for arm.
+
+Specification vocabulary
+* `stretchable s t` — `s` is no longer than `t` and, aligned at the trailing axis, every axis of `s`
+  equals the axis of `t` or is one; no zero length on an aligned axis (the code refuses those);
+  the added leading axes of `t` are unconstrained.
+* `bsrc s c` (model) — the source coordinate of target coordinate `c`: drop the added leading axes, use
+  index 0 along the unit axes of `s`.
+* `a.get? c` — the element stored at the row-major position of `c`.
+-/
 namespace ArrModel.C03
+open ArrModel Arr
+
+variable {α β : Type}
+
+/-! ## A. `broadcast_to`, accepted targets -/
+
+/-- **broadcast_to, values and shape**: a well-formed array whose shape can be stretched to `t` is
+broadcast successfully; the result has exactly the shape `t`, is well formed, and the element at every
+in-range coordinate `c` is the source element at `bsrc a.shape c`.
+Both arms of the code are covered: the equal-count `reshape` shortcut and the coordinate gather. -/
+theorem broadcastTo_stretch (a : Arr α) (t : List Nat) (hwf : a.WF) (hs : stretchable a.shape t = true) :
+    ∃ r, a.broadcastTo t = .ok r ∧ r.shape = t ∧ r.WF ∧
+      ∀ c, inRange t c = true → r.get? c = a.get? (bsrc a.shape c) := by
+  have hs' := hs
+  simp only [stretchable, Bool.and_eq_true, decide_eq_true_eq] at hs'
+  obtain ⟨hle, hse⟩ := hs'
+  have hchk := (stretchEq_iff_checks _ _ (stretchEq_length _ _ hse)).1 hse
+  have hb : isBroadcastable a.shape t = true := by rw [isBroadcastable_aligned _ _ hle, hchk.1]; rfl
+  unfold Arr.broadcastTo
+  rw [if_neg (by simp [hb])]
+  by_cases hp : a.shape.prod = t.prod
+  · rw [if_pos hp]
+    refine ⟨⟨a.elems, t⟩, ?_, rfl, ?_, ?_⟩
+    · unfold Arr.reshape Arr.new; rw [if_pos (by rw [← hp, hwf])]
+    · show a.elems.length = t.prod
+      rw [hwf, hp]
+    · intro c hc
+      show a.elems[ravel t c]? = a.elems[ravel a.shape (bsrc a.shape c)]?
+      rw [ravel_bsrc_of_prod_eq _ _ _ hs hp hc]
+  · rw [if_neg hp, if_neg (by omega)]
+    simp only
+    rw [if_neg (by simp [hchk.2])]
+    obtain ⟨es, hes, hlen, hval⟩ := gather_ok a hwf t hs
+    refine ⟨⟨es, t⟩, ?_, rfl, hlen, fun c hc => hval c hc⟩
+    rw [hes]
+    simp only [Res.bind_ok, Arr.new]
+    rw [if_pos hlen.symm]
+
+/-- every in-range position of the result of A holds an element (the result is total on its index space) -/
+theorem broadcastTo_total (a : Arr α) (t : List Nat) (hwf : a.WF) (hs : stretchable a.shape t = true)
+    (c : List Nat) (hc : inRange t c = true) :
+    inRange a.shape (bsrc a.shape c) = true ∧ ∃ x, a.get? (bsrc a.shape c) = some x := by
+  have h := inRange_bsrc _ _ _ hs hc
+  exact ⟨h, get?_isSome a hwf _ h⟩
+
+/-! ## B. `broadcast_to`, rejected targets
+
+The statement leaves one region open: targets of the *same* element count that the source cannot be
+stretched to (e.g. `[2,3] → [3,2]`, `[6] → [2,3]`): there the code takes the `reshape` shortcut and
+succeeds.  No theorem is stated for that region. -/
+
+/-- **broadcast_to, rejection**: a target of a different element count that the source cannot be
+stretched to is refused with `BroadcastShapeMismatch` — never data, never a panic. -/
+theorem broadcastTo_reject (a : Arr α) (t : List Nat) (hs : stretchable a.shape t = false)
+    (hp : a.shape.prod ≠ t.prod) : a.broadcastTo t = .err .BroadcastShapeMismatch := by
+  unfold Arr.broadcastTo
+  split
+  · rfl
+  · rename_i hb
+    split
+    · rfl
+    · rename_i hlen
+      simp only
+      split
+      · rfl
+      · rename_i hany
+        exfalso
+        have hle : a.shape.length ≤ t.length := by omega
+        have hb' : isBroadcastable a.shape t = true := by simpa using hb
+        rw [isBroadcastable_aligned _ _ hle] at hb'
+        have hse : stretchEq a.shape (t.drop (t.length - a.shape.length)) = true :=
+          (stretchEq_iff_checks _ _ (by simp; omega)).2 ⟨by simpa using hb', by simpa using hany⟩
+        simp [stretchable, hle, hse] at hs
+
+/-- `broadcast_to` never panics on a well-formed array -/
+theorem broadcastTo_never_panics (a : Arr α) (t : List Nat) (hwf : a.WF) : a.broadcastTo t ≠ .panic := by
+  cases hs : stretchable a.shape t
+  · by_cases hp : a.shape.prod = t.prod
+    · unfold Arr.broadcastTo
+      split
+      · simp
+      · unfold Arr.reshape Arr.new; split <;> simp
+    · rw [broadcastTo_reject a t hs hp]; simp
+  · obtain ⟨r, hr, _⟩ := broadcastTo_stretch a t hwf hs
+    rw [hr]; simp
+
+/-! ## E. `zip`: only the argument is stretched, to the receiver's shape -/
+
+/-- **zip, values and shape** -/
+theorem zip_at (a : Arr α) (b : Arr β) (ha : a.WF) (hb : b.WF) (hs : stretchable b.shape a.shape = true) :
+    ∃ r, a.zip b = .ok r ∧ r.shape = a.shape ∧ r.WF ∧
+      ∀ c, inRange a.shape c = true →
+        ∃ x y, a.get? c = some x ∧ b.get? (bsrc b.shape c) = some y ∧ r.get? c = some (x, y) := by
+  obtain ⟨b', hb1, hb2, hb3, hb4⟩ := broadcastTo_stretch b a.shape hb hs
+  have hlen : (a.elems.zip b'.elems).length = a.shape.prod := by
+    rw [List.length_zip, ha, hb3, hb2]; simp
+  refine ⟨⟨a.elems.zip b'.elems, a.shape⟩, ?_, rfl, hlen, ?_⟩
+  · unfold Arr.zip
+    rw [hb1]
+    simp only [Res.bind_ok, Arr.reshape, Arr.flat, Arr.new]
+    exact if_pos hlen.symm
+  · intro c hc
+    obtain ⟨x, hx⟩ := get?_isSome a ha c hc
+    obtain ⟨_, y, hy⟩ := broadcastTo_total b a.shape hb hs c hc
+    refine ⟨x, y, hx, hy, ?_⟩
+    have h1 := hb4 c hc
+    rw [hy] at h1
+    show (a.elems.zip b'.elems)[ravel a.shape c]? = some (x, y)
+    rw [List.getElem?_zip_eq_some]
+    refine ⟨hx, ?_⟩
+    unfold Arr.get? at h1
+    rw [hb2] at h1
+    exact h1
+
+/-- **zip, rejection**: an argument of a different element count that cannot be stretched to the
+receiver's shape is refused (in particular the receiver is never stretched) -/
+theorem zip_reject (a : Arr α) (b : Arr β) (hs : stretchable b.shape a.shape = false)
+    (hp : b.shape.prod ≠ a.shape.prod) : a.zip b = .err .BroadcastShapeMismatch := by
+  unfold Arr.zip
+  rw [broadcastTo_reject b a.shape hs hp]; rfl
+
+/-! ## C. `broadcast_shape`, axis by axis from the trailing axis
+
+`fromEnd s k` is the `k`-th axis length counted from the end, reading a missing leading axis as 1. -/
+
+/-- **broadcast_shape, characterisation**: the call answers `r` exactly when `r` has the larger rank, every
+aligned pair of lengths is equal or contains a one, and each result axis is the non-unit length of the pair. -/
+theorem broadcastShape_spec (s t r : List Nat) :
+    broadcastShape s t = .ok r ↔
+      r.length = max s.length t.length ∧
+      ∀ k, k < r.length →
+        (fromEnd s k = fromEnd t k ∨ fromEnd s k = 1 ∨ fromEnd t k = 1) ∧
+        fromEnd r k = if fromEnd s k = 1 then fromEnd t k else fromEnd s k :=
+  broadcastShape_ok_iff s t r
+
+/-- with no zero-length axis, every result axis is the larger aligned length -/
+theorem broadcastShape_max (s t r : List Nat) (h : broadcastShape s t = .ok r) (hs : 0 ∉ s) (ht : 0 ∉ t)
+    (k : Nat) : fromEnd r k = max (fromEnd s k) (fromEnd t k) := by
+  obtain ⟨hl, hk⟩ := (broadcastShape_ok_iff s t r).1 h
+  by_cases hkr : k < r.length
+  · obtain ⟨h1, h2⟩ := hk k hkr
+    have hs' : fromEnd s k ≠ 0 := by
+      by_cases hks : k < s.length
+      · exact (zero_not_mem_iff_fromEnd s).1 hs k hks
+      · rw [fromEnd_of_le s k (by omega)]; omega
+    have ht' : fromEnd t k ≠ 0 := by
+      by_cases hkt : k < t.length
+      · exact (zero_not_mem_iff_fromEnd t).1 ht k hkt
+      · rw [fromEnd_of_le t k (by omega)]; omega
+    rw [h2]; split <;> omega
+  · rw [fromEnd_of_le r k (by omega), fromEnd_of_le s k (by omega), fromEnd_of_le t k (by omega)]; rfl
+
+/-- a disagreement on an aligned axis where neither length is one is refused -/
+theorem broadcastShape_reject (s t : List Nat) (k : Nat)
+    (h : fromEnd s k ≠ fromEnd t k ∧ fromEnd s k ≠ 1 ∧ fromEnd t k ≠ 1) :
+    broadcastShape s t = .err .BroadcastShapeMismatch :=
+  broadcastShape_clash s t k h
+
+/-! ## D. `broadcast` of two arrays -/
+
+/-- **broadcast, values and shape**: when the two shapes have a common broadcast shape `fs` without a
+zero-length axis, the call succeeds with exactly that shape, and the pair stored at every in-range coordinate
+`c` is (element of `a` at `bsrc a.shape c`, element of `b` at `bsrc b.shape c`).
+Covers the equal-shape arm and the two-stretch arm. (A zero-length axis is refused by the code.) -/
+theorem broadcast_at (a : Arr α) (b : Arr β) (fs : List Nat) (ha : a.WF) (hb : b.WF)
+    (hfs : broadcastShape a.shape b.shape = .ok fs) (hz : 0 ∉ fs) :
+    ∃ r, a.broadcast b = .ok r ∧ r.shape = fs ∧ r.WF ∧
+      ∀ c, inRange fs c = true →
+        ∃ x y, a.get? (bsrc a.shape c) = some x ∧ b.get? (bsrc b.shape c) = some y ∧
+          r.get? c = some (x, y) := by
+  obtain ⟨hsa, hsb, hib⟩ := stretchable_of_broadcastShape _ _ _ hfs hz
+  unfold Arr.broadcast
+  rw [if_neg (by simp [hib])]
+  by_cases heq : a.shape = b.shape
+  · rw [if_pos heq]
+    have hfa : fs = a.shape := by rw [← heq] at hfs; exact broadcastShape_self _ _ hfs
+    subst hfa
+    obtain ⟨r, hr1, hr2, hr3, hr4⟩ := new_zip a b a.shape rfl heq.symm ha hb
+    refine ⟨r, hr1, hr2, hr3, fun c hc => ?_⟩
+    rw [bsrc_of_inRange _ _ hc, ← heq, bsrc_of_inRange _ _ hc]
+    obtain ⟨x, hx⟩ := get?_isSome a ha c hc
+    obtain ⟨y, hy⟩ := get?_isSome b hb c (by rw [← heq]; exact hc)
+    exact ⟨x, y, hx, hy, hr4 c x y hx hy⟩
+  · rw [if_neg heq, hfs]
+    obtain ⟨a', ha1, ha2, ha3, ha4⟩ := broadcastTo_stretch a fs ha hsa
+    obtain ⟨b', hb1, hb2, hb3, hb4⟩ := broadcastTo_stretch b fs hb hsb
+    simp only [Res.bind_ok, ha1, hb1]
+    obtain ⟨r, hr1, hr2, hr3, hr4⟩ := new_zip a' b' fs ha2 hb2 ha3 hb3
+    refine ⟨r, hr1, hr2, hr3, fun c hc => ?_⟩
+    obtain ⟨_, x, hx⟩ := broadcastTo_total a fs ha hsa c hc
+    obtain ⟨_, y, hy⟩ := broadcastTo_total b fs hb hsb c hc
+    exact ⟨x, y, hx, hy, hr4 c x y (by rw [ha4 c hc, hx]) (by rw [hb4 c hc, hy])⟩
+
+/-- **broadcast, rejection**: operands that disagree on an aligned axis where neither length is one are
+refused with `BroadcastShapeMismatch` -/
+theorem broadcast_reject (a : Arr α) (b : Arr β) (k : Nat) (hka : k < a.shape.length) (hkb : k < b.shape.length)
+    (h : fromEnd a.shape k ≠ fromEnd b.shape k ∧ fromEnd a.shape k ≠ 1 ∧ fromEnd b.shape k ≠ 1) :
+    a.broadcast b = .err .BroadcastShapeMismatch := by
+  have hib : isBroadcastable a.shape b.shape = false := by
+    cases hi : isBroadcastable a.shape b.shape
+    · rfl
+    · have := (isBroadcastable_iff_fromEnd _ _).1 hi k hka hkb
+      simp only [dimClash, Bool.or_eq_false_iff, Bool.and_eq_false_iff, bne_eq_false_iff_eq,
+        beq_eq_false_iff_ne] at this
+      omega
+  unfold Arr.broadcast
+  rw [if_pos (by simp [hib])]
+
 end ArrModel.C03
